@@ -160,6 +160,9 @@ def detectencoding_str(input, final=False):  # noqa: C901
     # if this is the last call, and we haven't determined an encoding yet,
     # we default to UTF-8
     if final:
+        if candidates == CANDIDATE_UTF_16_AS_LE | CANDIDATE_UTF_32_AS_LE and li >= 2:
+            # a UTF-16 (LE) BOM at the end of the input: too short for UTF-32
+            return ("utf-16", True)
         return ("utf-8", False)
     return (None, False)  # dont' know yet
 
